@@ -87,11 +87,13 @@ impl RoutingTable {
             return false;
         }
 
-        if self
-            .buckets()
-            .values()
-            .any(|bucket| node.already_exists(&bucket.nodes))
-        {
+        // The per IP limits are about _other_ nodes, a node we already know by this id
+        // is handled by its bucket (refreshing its `last_seen`, or rejecting the change).
+        if self.buckets().values().any(|bucket| {
+            bucket
+                .iter()
+                .any(|existing| existing.id() != node.id() && node.already_exists(&[existing.clone()]))
+        }) {
             return false;
         };
 
